@@ -28,7 +28,7 @@ var c10RepoName = regexp.MustCompile(`^(?:[a-z0-9.-]+(?::[0-9]+)?/)?[a-z0-9._/-]
 func c10HasMetaChar(s string) bool { return strings.ContainsAny(s, `\.+*?()|[]{}^$`) }
 
 // entry names the image oracle covers: plain repository names, or names with regexp metacharacters
-// (for which the listed finding is emulated)
+// (matched literally since /repo d3b6ede: they equal no well-formed repository name)
 func c10EntryInDomain(name string) bool {
 	return name != "" && (c10RepoName.MatchString(name) || c10HasMetaChar(name))
 }
@@ -158,11 +158,6 @@ func c10JudgeObjs(sp c10Spec, beforeTexts []string, cls string, afterTexts []str
 	hangShape := c10ExpectHang(c10Case{Kind: "repl", Repls: sp.Repls})
 	switch cls {
 	case ClsPanic:
-		for _, im := range sp.Images {
-			if _, err := regexp.Compile(im.Name); err != nil {
-				return c10Verdict{true, "C10/image-name-regex-compile-panic", "terminates_without_panic", what + " panicked"}
-			}
-		}
 		if _, ok := predict(c10Mode{}); !ok {
 			return c10Verdict{} // e.g. malformed previous-id annotations: C12's business
 		}
@@ -202,8 +197,8 @@ func c10JudgeObjs(sp c10Spec, beforeTexts []string, cls string, afterTexts []str
 		detail = c10DiffText(c10CompareObjs(p.objs, after))
 	}
 	undecided := false
-	for _, m := range []c10Mode{{ImgRegex: true}, {ImgTwice: true}, {ImgRegex: true, ImgTwice: true}, {ListKeyRegex: true}, {SourceAlias: true}, {ListKeyRegex: true, SourceAlias: true}} {
-		if (m.ImgRegex || m.ImgTwice) && len(sp.Images) == 0 {
+	for _, m := range []c10Mode{{ImgTwice: true}, {ListKeyRegex: true}, {SourceAlias: true}, {ListKeyRegex: true, SourceAlias: true}} {
+		if m.ImgTwice && len(sp.Images) == 0 {
 			continue
 		}
 		if (m.ListKeyRegex || m.SourceAlias) && len(sp.Repls) == 0 {
